@@ -92,8 +92,21 @@ Fixpoint eval_toks (lookup : str -> outcome (list str)) (rec : list vtok -> outc
   | t :: r => rbind (eval_tok lookup rec t) (fun here => rbind (eval_toks lookup rec r) (fun rest => ROk (here ++ rest)))
   end.
 
-(* Scope.swap: the variable's value (a token list) is evaluated where it is used *)
+(* Scope.swap: the variable's value (a token list) is evaluated where it is used.
+   The interpolation form @{name} (inside strings and selectors) looks @name up and strips quote characters from both
+   ends of the first token of its value (utility.destring) *)
+Definition is_interp (x : str) : bool := match x with "@" :: "{" :: _ => true | _ => false end.
+Definition interp_name (x : str) : str := match x with "@" :: "{" :: r => "@" :: removelast r | _ => x end.
+Definition is_quote_ch (c : ascii) : bool := Ascii.eqb c """" || Ascii.eqb c "'".
+Definition destring (s : str) : str := strip is_quote_ch s.
+Definition destring_first (v : list vtok) : list vtok := match v with VT s :: r => VT (destring s) :: r | _ => v end.
 Definition lookup_with (rec : list vtok -> outcome (list str)) (sc : scope) (x : str) : outcome (list str) :=
+  if is_interp x then
+    match variables (interp_name x) sc with
+    | Some v => rec (destring_first v)
+    | None => RError $"SyntaxError" ($"Unknown escaped variable " ++ x)
+    end
+  else
   match x with
   | "@" :: "@" :: _ => RError $"SyntaxError" $"indirect variable not modelled"
   | _ => match variables x sc with
@@ -287,4 +300,43 @@ Definition to_case_res (r : outcome str) : Cases.res :=
   | REscaped t => Escaped t
   | RFuel => Err $"CompilationError"               (* 'Recursive variable definition' *)
   end.
-Definition compile_case (o : opts) (units : list node) : Cases.res := to_case_res (compile_nodes o units).
+
+(* ---- first pass (the parser): a selector with @{name} is resolved when its block is opened, with the variables defined
+   textually before it (p_block_open: Identifier.parse(self.scope)); variables of identifier / number kind (plain tokens).
+   Mixin bodies are left alone (their selectors are resolved when the mixin is called: not modelled). ---- *)
+Definition vt_only (v : list vtok) : bool := forallb (fun t => match t with VT _ => true | _ => false end) v.
+Definition vt_strs (v : list vtok) : list str := map (fun t => match t with VT s => s | _ => [] end) v.
+Definition subst_sel (sc : scope) (sel : list str) : outcome (list str) :=
+  fold_right (fun t acc =>
+    rbind acc (fun rest =>
+      if is_interp t then
+        match variables (interp_name t) sc with
+        | Some v => if vt_only v then ROk (vt_strs (destring_first v) ++ rest) else REscaped $"NoModel: structured value in a selector"
+        | None => RError $"SyntaxError" ($"Unknown escaped variable " ++ t)
+        end
+      else ROk (t :: rest))) (ROk []) sel.
+Fixpoint presub_node (sc : scope) (n : node) {struct n} : outcome (node * scope) :=
+  let go := fix go (sc1 : scope) (l : list node) : outcome (list node) :=
+    match l with
+    | [] => ROk []
+    | c :: r => rbind (presub_node sc1 c) (fun '(c', sc2) => rbind (go sc2 r) (fun r' => ROk (c' :: r')))
+    end in
+  match n with
+  | NVar name val => ROk (n, add_variable name val sc)
+  | NBlock sel body =>
+      rbind (subst_sel sc sel) (fun sel' => rbind (go (push sc) body) (fun body' => ROk (NBlock sel' body', sc)))
+  | NFrame sel body => rbind (go (push sc) body) (fun body' => ROk (NFrame sel body', sc))
+  | _ => ROk (n, sc)
+  end.
+Fixpoint presub_units (sc : scope) (l : list node) : outcome (list node) :=
+  match l with
+  | [] => ROk []
+  | c :: r => rbind (presub_node sc c) (fun '(c', sc2) => rbind (presub_units sc2 r) (fun r' => ROk (c' :: r')))
+  end.
+Definition compile_case (o : opts) (units : list node) : Cases.res :=
+  match presub_units [[]] units with
+  | ROk units' => to_case_res (compile_nodes o units')
+  | RError c m => to_case_res (RError c m)
+  | REscaped t => Escaped t
+  | RFuel => to_case_res RFuel
+  end.
